@@ -41,6 +41,12 @@ def run(chk, repo):
     chk.doc("R07.3", "address identity")
     chk.doc("R07.4", "no atomic add on prefixed formats")
     chk.doc("R07.5", "swap, then sign-extend")
+    from .c01 import store_immediate, r5_endian
+    # the whole load route first (operand as Memory.calculate builds it),
+    # then calculate_unary on its own
+    chk.doc("R01.5", "byte-swapped loads are sign-extended again (shared "
+                     "with C01)")
+    r5_endian(chk, repo, d)
     swap(chk, repo, d)
     wrapping(chk, repo, d)
     sh.guard_strictness(chk, repo, "R07.2")
@@ -48,12 +54,8 @@ def run(chk, repo):
     chk.doc("R01.4", "format -> access size and computation width (shared "
                      "with C01)")
     r4_formats(chk, repo, d)
-    from .c01 import store_immediate, r5_endian
     chk.doc("R01.7", "immediate stores (shared with C01)")
     store_immediate(chk, repo, d)
-    chk.doc("R01.5", "byte-swapped loads are sign-extended again (shared "
-                     "with C01)")
-    r5_endian(chk, repo, d)
 
 
 class View:
@@ -115,7 +117,14 @@ def swap(chk, repo, d):
                 try:
                     ev.call_function(f, [me, 4, long], cls=se)
                 except (Raised, Unknown) as e:
-                    raise AnalysisError(f"R07.1: cannot fold {what}: {e}")
+                    # calculate_unary needs more of the operand than its
+                    # format: R01.5 above ran it on the operand the load
+                    # route builds, and stands alone
+                    chk.ob("R07.1", se.qualname + ".calculate_unary",
+                           "calculate_unary cannot be run on a bare "
+                           "operand; decided on the whole load route "
+                           "(R01.5)", True, f, f"{what}: {e}")
+                    return
                 bits = calcsize(letter) * 8
                 width = 64 if long else 32
                 apps = [x for x in log if x[0] == "append"]
